@@ -17,6 +17,9 @@ use crate::report::Tally;
 /// Progress value a worker sets while it runs its fixed warm-up input.
 pub const WARMUP: u64 = u64::MAX - 1;
 
+/// Lost workers after which the remaining jobs of a part are no longer attempted.
+const MAX_LOSSES: usize = 48;
+
 pub struct Progress(File);
 
 impl Progress {
@@ -194,9 +197,13 @@ pub fn run_isolated(
 				let (case, desc) = describe(idx as usize);
 				let class = if why.contains("no progress") { "hang".to_string() } else if why.contains("signal") { format!("abort-or-crash:{}", why.split_whitespace().nth(4).unwrap_or("?").trim_end_matches(';')) } else { "abnormal-exit".into() };
 				merged.tally.bad(class, case, format!("{desc}: {why}"));
-				assert!(losses < 200, "MACHINERY: too many lost workers");
+				// every loss is already a recorded violation; after many of them the rest of the sweep
+				// is abandoned (and reported as capped) instead of restarting workers for ever
 				let next = idx as usize + nparts;
-				if next < njobs {
+				if losses >= MAX_LOSSES {
+					merged.tally.capped += 1;
+					merged.tally.count("parts-abandoned-after-too-many-lost-workers");
+				} else if next < njobs {
 					workers.push(spawn(part, next));
 				}
 				continue;
